@@ -108,7 +108,7 @@ func VF_C06_L1_Revocation() {
 				w.mq.event("event.test.model", "reaccess", nil)
 			case 2:
 				zzvf.Note("trigger: system reset access")
-				w.mq.event("system", "reset", []byte(`{"access":["test.model"]}`))
+				w.mq.event("system", "reset", []byte(`{"access":["test.model.","other.*","test.model"]}`))
 			}
 		default:
 			req := pend[a-firstAnswer]
